@@ -429,6 +429,12 @@ class OpsMixin:
 
     def isinstance_test(self, v, cls, force=None):
         kn = self.kind_names(cls)
+        if kn is not None and type(v).__name__ == "Transf" and isinstance(v.inner, UNode):
+            # the rewriter preserves the kind of every node except names and walruses
+            changing = {"Name", "NamedExpr", "Subscript", "Call", "List"}
+            if not (kn & changing):
+                return self.kind_test(v.inner, kn)
+            return self.decide(f"isinstance:X({v.inner.path()}):{'|'.join(sorted(kn))[:50]}")
         if kn is not None:
             if isinstance(v, UNode):
                 if force:
@@ -661,6 +667,15 @@ class OpsMixin:
             return Unknown(f"{self.describe(v)}.{name}")
         if isinstance(v, Sym):
             return BoundBuiltin(v, name)
+        if type(v).__name__ == "Transf" and isinstance(v.inner, UNode):
+            if v.inner.kinds & {"Name", "NamedExpr"}:
+                raise AnalysisError(f"attribute {name} of a rewritten expression that may be a name at {self.cur_site}")
+            sub = self.unode_getattr(v.inner, name, node)
+            if isinstance(sub, UNode):
+                from .vals import Transf
+
+                return Transf(v.nsp, sub, v.site)
+            return sub
         raise AnalysisError(f"attribute {name} of {v!r} at {self.cur_site}")
 
     def unode_getattr(self, u: UNode, name, node):
